@@ -41,6 +41,8 @@ typedef struct VThread {
     pthread_t real;
     void *(*fn)(void *); void *arg;
     int npoints;
+    uint64_t path;        /* rolling hash of the kinds and objects of the scheduling points this thread has passed: identifies its position in its code */
+    int tag;              /* tag of the explicit point it is at (vs_point) */
     int joined;
 } VThread;
 
@@ -57,6 +59,7 @@ static struct {
     struct vs_options opt;
     int64_t clock_ns;
     int spurious_left;
+    int pruned;
     char note[64];                /* harness annotation appended to a deadlock message (which phase of the script the owner is in) */
     long cell[VS_NCELL];
     uint64_t new_states;
@@ -164,6 +167,7 @@ static uint64_t fingerprint(void) {
     for (int i = 0; i < G.nt; i++) {
         VThread *t = &G.T[i];
         if (t->state == ST_FUTEX) h = vs_mix(h, (uint64_t)(uintptr_t)t->faddr);
+        h = vs_mix(h, t->path);
         h = vs_mix(h, (uint64_t)t->state | ((uint64_t)t->npoints << 8) | ((uint64_t)(t->m ? (t->m - G.M) + 1 : 0) << 32)
                       | ((uint64_t)(t->cv ? (t->cv - G.C) + 1 : 0) << 40) | ((uint64_t)(t->target + 1) << 48));
     }
@@ -213,7 +217,27 @@ static void sched(VThread *me) {
     s->heartbeat++;
     if (++s->steps > (uint64_t)G.opt.horizon) fatal_outcome(VS_OUT_HORIZON, "step horizon %d exceeded (livelock or polling loop?)", G.opt.horizon);
     me->npoints++;
+    me->path = vs_mix(me->path, (uint64_t)me->state | ((uint64_t)(me->m ? (me->m - G.M) + 1 : 0) << 8) | ((uint64_t)(me->cv ? (me->cv - G.C) + 1 : 0) << 16) | ((uint64_t)(me->target + 1) << 24) | ((uint64_t)(uint32_t)me->tag << 32));
+    me->tag = 0;
     count_state();
+    /* stateful exploration: a state that has been reached before (by any execution of this program) has had all its alternatives explored from there, so this
+     * execution offers no further alternatives from here on.  States inside the replayed prefix are the ancestors of this execution and are not looked up. */
+    if (G.opt.prune_table && !G.pruned && s->rec.n >= G.opt.prefix_len) {
+        uint64_t h = vs_mix(fingerprint(), G.opt.prune_salt), mask = G.opt.prune_mask, i = h & mask; int found = 0, placed = 0;
+        if (!h) h = 1;
+        for (int probe = 0; probe < 256 && !found && !placed; probe++, i = (i + 1) & mask) {
+            uint64_t cur = __atomic_load_n(&G.opt.prune_table[i], __ATOMIC_RELAXED);
+            if (cur == h) found = 1;
+            else if (cur == 0) {
+                uint64_t exp = 0;
+                if (__atomic_compare_exchange_n(&G.opt.prune_table[i], &exp, h, 0, __ATOMIC_RELAXED, __ATOMIC_RELAXED)) placed = 1;
+                else if (exp == h) found = 1;
+            }
+        }
+        if (found) { if (!G.opt.prune_audit) { G.pruned = 1; s->rec.pruned_at = s->rec.n; } }
+        else if (placed) s->rec.new_states++;
+        else s->rec.table_full = 1;      /* never prune on a full table */
+    }
 
     int en[VS_MAXT], n = 0, ntimeout = 0;
     int me_en = enabled(me) && !is_timeout_alt(me) && me->state != ST_YIELD;
@@ -283,7 +307,7 @@ static void point(VThread *me) { me->state = ST_READY; sched(me); }
 /* ------------------------------------------------------------------ public harness API */
 int vs_active(void) { return G.active; }
 int vs_self(void) { return controlled() ? self->id : -1; }
-void vs_point(int tag) { (void)tag; if (controlled()) point(self); }
+void vs_point(int tag) { if (controlled()) { self->tag = tag; point(self); } }
 void vs_event(int kind, int a, long b) { if (controlled()) log_event(kind, self->id, a, b); }
 long vs_cell_get(int i) { return G.cell[i]; }
 void vs_cell_set(int i, long v) { G.cell[i] = v; }
@@ -306,7 +330,8 @@ void vs_begin(struct vs_slot *slot, const struct vs_options *opt) {
     memset(G.cell, 0, sizeof G.cell);
     G.slot = slot; G.opt = *opt;
     if (G.opt.horizon <= 0) G.opt.horizon = 20000;
-    G.spurious_left = G.opt.spurious; G.note[0] = 0;
+    G.spurious_left = G.opt.spurious; G.note[0] = 0; G.pruned = 0;
+    slot->rec.pruned_at = VS_MAXP + 1; slot->rec.new_states = 0; slot->rec.table_full = 0;
     G.clock_ns = 1700000000LL * 1000000000LL;
     slot->rec.n = 0; slot->nev = 0; slot->outcome = VS_OUT_RUNNING; slot->msg[0] = 0; slot->steps = 0; slot->parked_any = 0;
     G.T[0].id = 0; G.T[0].state = ST_READY; G.T[0].real = pthread_self();
@@ -370,6 +395,7 @@ static int cond_wait_common(pthread_cond_t *cv, pthread_mutex_t *mu, int timed, 
     VThread *me = self; VCond *c = cnd(cv); VMutex *m = mtx(mu);
     if (m->owner != me->id) fatal_outcome(VS_OUT_ORACLE, "t%d waits on a condition variable without owning the mutex", me->id);
     point(me);                                  /* the window between predicate evaluation and blocking */
+    if (G.opt.park_cb) G.opt.park_cb(me->id);   /* the thread still owns the mutex: the harness may read what the waiter has just published */
     TSAN_REL(mu);
     m->count = 0; m->owner = -1;
     c->w[c->nw++] = me->id;
